@@ -573,7 +573,7 @@ def norm(x, ord=None, axis=None, keepdims=False):
         raise Unsupported(f"norm ord={ord}")
     if ord == 2 and x.ndim == 2 and axis is None:
         raise Unsupported("spectral norm")
-    sq = (x * x).sum(axis=axis, keepdims=keepdims)
+    sq = (x * x).sum(axis=axis, keepdims=keepdims)  # elementwise x*x carries the nonneg flag
     return sqrt(sq) if isinstance(sq, _np.ndarray) else _ssqrt(sq)
 
 
